@@ -691,6 +691,8 @@ def gen_odomain_case(rng, mode=None):
             if not domain_problems(text, entries):
                 case = dict(map=entries, text=text, mods=mods, params=gen_params(rng),
                             mode=mode or rng.choice(["transform"] * 6 + ["canonical"] * 3), odomain=True)
+                if case["mode"] == "canonical" and len(entries) > 1 and rng.random() < 0.4:
+                    case["dbsplit"] = [rng.randint(1, len(entries) - 1)]
                 if case["mode"] == "canonical" and len(entries) > 1 and rng.random() < 0.15:
                     # one entry is forgotten by the database
                     case["forget"] = [rng.choice(entries)[0]]
